@@ -420,7 +420,7 @@ def run(ctx: RuleContext, p: Program) -> None:
     ctx.try_rule(rule_handler_form, p, 'HANDLER-FORM')
     ctx.try_rule(rule_view_read, p, 'VIEW-READ')
     ctx.try_rule(rule_view_write, p, 'VIEW-WRITE')
-    ctx.try_rule(rule_view_sem, p, 'VIEW-SEM', 3 if ctx.tier == 'quick' else 4)
+    ctx.try_rule(rule_view_sem, p, 'VIEW-SEM', 3 if ctx.tier == 'quick' else 5)
     ctx.try_rule(rule_view_snapshot, p, 'VIEW-SNAPSHOT')
     ctx.try_rule(rule_cache_dep, p, 'CACHE-DEP')
     ctx.try_rule(rule_map_first, p, 'MAP-FIRST')
@@ -428,9 +428,12 @@ def run(ctx: RuleContext, p: Program) -> None:
     ctx.try_rule(idxspace.rule_idx_space, p, 'IDX-SPACE')
     from . import round4
     ctx.try_rule(round4.rule_memo, p, 'MEMO')
+    ctx.try_rule(round4.rule_desc_state, p, 'DESC-STATE')
     ctx.try_rule(round4.rule_id_cmp, p, 'ID-CMP')
     from . import presence
     ctx.try_rule(presence.rule_presence_truth, p, 'PRESENCE-TRUTH')
+    from . import round4 as _r4
+    ctx.try_rule(_r4.rule_iter_once, p, 'ITER-ONCE')
     ctx.not_decided += ['Python list semantics for every index / slice of each view', 'ordered-dict / first-match semantics of '
                         'the meta mapping view', 'MutableSequence mixin methods inherited from collections.abc']
     ctx.assumptions += ['bisect_left on a sorted list of distinct positions', 'range_from_index returns a range inside [0, n] '
@@ -1031,11 +1034,17 @@ def rule_view_sem(ctx: RuleContext, p: Program, rid: str, max_raw: int = 4) -> N
                     return isinstance(v, slice)
                 if t.endswith('Iterable') or t.endswith('Collection'):
                     return isinstance(v, (list, tuple))
+            if isinstance(e, ast.Subscript) and isinstance(e.slice, ast.Slice):
+                bv = self.expr(e.value, env)
+                if isinstance(bv, possem.Obj) and bv.cls == 'RawWrapper':
+                    return list(bv.f['items'][self._slice_of(e.slice, env)])
             if isinstance(e, ast.Subscript) and not isinstance(e.slice, ast.Slice):
                 bv = self.expr(e.value, env)
                 if isinstance(bv, possem.Obj) and bv.cls == 'RawWrapper':
                     i = self.expr(e.slice, env)
                     raw = bv.f['items']
+                    if isinstance(i, slice):
+                        return list(raw[i])
                     if not isinstance(i, int) or not -len(raw) <= i < len(raw):
                         raise possem.Raised(f'IndexError: raw position {i!r}')
                     return raw[i]
@@ -1060,7 +1069,48 @@ def rule_view_sem(ctx: RuleContext, p: Program, rid: str, max_raw: int = 4) -> N
                     return self.call_function(vw.lookup('__len__'), [self.me], {})
             return super().call_value(f, args, kwargs, node)
 
+        def _slice_of(self, sl: ast.Slice, env: dict) -> slice:
+            parts = [self.expr(x, env) if x is not None else None for x in (sl.lower, sl.upper, sl.step)]
+            if not all(x is None or (isinstance(x, int) and not isinstance(x, bool)) for x in parts):
+                raise self.err(sl, 'slice of the raw list with non-integer bounds')
+            return slice(*parts)
+
+        def stmt(self, st: Any, env: dict) -> None:               # type: ignore[override]
+            # the raw wrapper is a list: `del raw[i]`, `del raw[a:b:c]`
+            if isinstance(st, ast.Delete) and len(st.targets) == 1 and isinstance(st.targets[0], ast.Subscript):
+                bv = self.expr(st.targets[0].value, env)
+                if isinstance(bv, possem.Obj) and bv.cls == 'RawWrapper':
+                    raw = bv.f['items']
+                    sl = st.targets[0].slice
+                    try:
+                        if isinstance(sl, ast.Slice):
+                            del raw[self._slice_of(sl, env)]
+                        else:
+                            i = self.expr(sl, env)
+                            if isinstance(i, slice):
+                                del raw[i]
+                            elif isinstance(i, int) and not isinstance(i, bool):
+                                del raw[i]
+                            else:
+                                raise self.err(st, 'del of the raw list with a non-integer position')
+                    except IndexError as ex:
+                        raise possem.Raised(f'IndexError: {ex}')
+                    finally:
+                        self.refresh()
+                    return
+            super().stmt(st, env)
+
         def assign(self, t: Any, v: Any, env: dict) -> None:      # type: ignore[override]
+            if isinstance(t, ast.Subscript) and isinstance(t.slice, ast.Slice):
+                bv = self.expr(t.value, env)
+                if isinstance(bv, possem.Obj) and bv.cls == 'RawWrapper':
+                    try:
+                        bv.f['items'][self._slice_of(t.slice, env)] = self.iter_of(v, t)
+                    except ValueError as ex:
+                        raise possem.Raised(f'ValueError: {ex}')
+                    finally:
+                        self.refresh()
+                    return
             if isinstance(t, ast.Subscript) and not isinstance(t.slice, ast.Slice):
                 bv = self.expr(t.value, env)
                 if isinstance(bv, possem.Obj) and bv.cls == 'RawWrapper':
